@@ -188,6 +188,10 @@ func (f *fuzzCtx) request() (Req, string) {
 		if rng.Bool() {
 			body = body[:rng.Intn(len(body)+1)]
 		}
+		if rng.Intn(3) == 0 {
+			// a chunk-size field the decoder has to survive: signed, huge, not hexadecimal, empty
+			body = append([]byte(f.pick("-5", "-1", "+5", " 5", "ffffffffffffffff", "7fffffffffffffff", "-8000000000000000", "zz", "", "0x5", "5 ")+";chunk-signature="+strings.Repeat("0", 64)+"\r\nhello\r\n0;chunk-signature="+strings.Repeat("0", 64)+"\r\n\r\n"), body...)
+		}
 		hdr = append(hdr, [2]string{"X-Amz-Content-Sha256", "STREAMING-AWS4-HMAC-SHA256-PAYLOAD"},
 			[2]string{"X-Amz-Decoded-Content-Length", f.pick("0", "5", "40", "-1", "abc", "", "9223372036854775807x", "1048576")})
 	}
@@ -462,6 +466,17 @@ func runC09(tier string, seed uint64) {
 				corpus = append(corpus, Req{Method: "PUT", Path: p, Body: []byte("long")}, Req{Method: "GET", Path: p}, Req{Method: "HEAD", Path: p},
 					Req{Method: "GET", Path: "/" + singleBucketName}, Req{Method: "GET", Path: "/" + singleBucketName + "?list-type=2&delimiter=%2F"},
 					Req{Method: "DELETE", Path: p}, Req{Method: "GET", Path: "/" + singleBucketName})
+			}
+			// aws-chunked bodies whose chunk-size field is hostile, as an object and as a part of a pending upload
+			for _, sz := range []string{"-5", "-1", "-0", "+5", " 5", "ffffffffffffffff", "7fffffffffffffff", "-8000000000000000", "-7fffffffffffffff", "zz", "", "5 "} {
+				for _, dl := range []string{"5", "0"} {
+					cb := []byte(sz + ";chunk-signature=" + strings.Repeat("0", 64) + "\r\nhello\r\n0;chunk-signature=" + strings.Repeat("0", 64) + "\r\n\r\n")
+					hh := [][2]string{{"X-Amz-Content-Sha256", "STREAMING-AWS4-HMAC-SHA256-PAYLOAD"}, {"X-Amz-Decoded-Content-Length", dl}}
+					corpus = append(corpus, Req{Method: "PUT", Path: "/" + singleBucketName + "/chunk-size", Body: cb, Header: hh})
+					for _, up := range f.uploads[:min(1, len(f.uploads))] {
+						corpus = append(corpus, Req{Method: "PUT", Path: "/" + singleBucketName + "/mp?uploadId=" + up + "&partNumber=7", Body: cb, Header: hh})
+					}
+				}
 			}
 			corpus = append(corpus,
 				Req{Method: "PUT", Path: "/" + singleBucketName + "/neg", Body: []byte("x"), Header: [][2]string{{"X-Amz-Content-Sha256", "STREAMING-AWS4-HMAC-SHA256-PAYLOAD"}, {"X-Amz-Decoded-Content-Length", "-1"}}},
